@@ -7,19 +7,20 @@ from mc.core import Result, SubCheck, jhash
 
 PROPERTY = "C19"
 ASSUMPTIONS = [
-    "Stream: 3 initial streams (hot, cold, latent) x all sequences of <=3 (quick) / 4 (thorough) assignments from a 14-event menu "
-    "(t_supply/t_target in {50,100,150}, heat_flow in {200,600}, dt_cont in {0,10}, htc in {0.5,2}, set_heat_flow(300))",
+    "Stream: 4 initial streams (hot, cold, latent, an unloaded utility with zero duty) x all sequences of <=3 (quick) / 4 (thorough) assignments from a 15-event menu "
+    "(t_supply/t_target in {50,100,150}, heat_flow in {0,200,600}, dt_cont in {0,10}, htc in {0.5,2}, set_heat_flow(300))",
     "StreamCollection: pool of three streams with clashing names; 17-event menu (add, add with key, add_many, remove, replace, set_sort_key, +, member attribute assignment); "
     "depth 4 (quick) / 5 (thorough); states rebuilt by replaying the history on fresh objects; lock-step list reference",
-    "film coefficient 0 is outside the alphabet (no reciprocal)",
+    "film coefficient 0 is outside the alphabet (no reciprocal); so is supply == target together with a zero duty (neither span nor sign: the stream has no kind)",
 ]
 
 # ------------------------------------------------------------------ Stream
 S_INIT = [("hot", dict(t_supply=150.0, t_target=50.0, heat_flow=200.0, dt_cont=10.0, htc=2.0)),
           ("cold", dict(t_supply=50.0, t_target=100.0, heat_flow=600.0, dt_cont=0.0, htc=0.5)),
-          ("latent", dict(t_supply=100.0, t_target=100.0, heat_flow=200.0, dt_cont=10.0, htc=2.0))]
+          ("latent", dict(t_supply=100.0, t_target=100.0, heat_flow=200.0, dt_cont=10.0, htc=2.0)),
+          ("unloaded-utility", dict(t_supply=150.0, t_target=149.9, heat_flow=0.0, dt_cont=0.0, htc=1.0))]
 S_EVENTS = ([("t_supply", v) for v in (50.0, 100.0, 150.0)] + [("t_target", v) for v in (50.0, 100.0, 150.0)]
-            + [("heat_flow", v) for v in (200.0, 600.0)] + [("dt_cont", v) for v in (0.0, 10.0)] + [("htc", v) for v in (0.5, 2.0)]
+            + [("heat_flow", v) for v in (200.0, 600.0, 0.0)] + [("dt_cont", v) for v in (0.0, 10.0)] + [("htc", v) for v in (0.5, 2.0)]
             + [("set_heat_flow", 300.0)])
 
 
@@ -34,6 +35,23 @@ def stream_build(init_i, hist):
         else:
             setattr(s, attr, v)
     return s
+
+
+def degenerate(init_i, hist) -> bool:
+    """True if the history passes through supply == target together with zero duty (tracked on the assigned primitives only)."""
+    p = dict(S_INIT[init_i][1])
+    for e in hist:
+        attr, v = S_EVENTS[e]
+        if attr == "set_heat_flow":
+            p["heat_flow"] = v
+        else:
+            p[attr] = v
+        if p["t_supply"] == p["t_target"]:
+            if p["heat_flow"] == 0.0:
+                return True
+            # the library turns supply == target into a 0.01 K span by moving the target: mirror that on the primitives
+            p["t_target"] = p["t_supply"] + (0.01 if p["heat_flow"] > 0 else -0.01)
+    return False
 
 
 def stream_key(s):
@@ -91,6 +109,8 @@ def stream_explore(tier, inst, shard, nshards):
                         if work % nshards != shard:
                             continue
                     h2 = hist + [e]
+                    if degenerate(init_i, h2):
+                        continue        # supply == target with zero duty: a stream with neither span nor duty has no kind (outside the alphabet)
                     s = stream_build(init_i, h2)
                     res.transitions += 1
                     for clause, detail, cls in stream_invariants(s):
@@ -309,7 +329,7 @@ SUBCHECKS = {
         describe="BFS over sequences of Stream attribute assignments; invariants (CP.span = duty, bounds order, shift direction = kind, resistance) in every state",
         rule="state = all public derived attributes; non-trivial = state differs from its predecessor",
         explore=stream_explore, replay=stream_replay,
-        bound=lambda t: "3 initial streams x all sequences of <=3 of 14 events" if t == "quick" else "3 initial x <=4 of 14 events",
+        bound=lambda t: "4 initial streams x all sequences of <=3 of 15 events" if t == "quick" else "4 initial x <=4 of 15 events",
     ),
     "collection": SubCheck(
         name="collection",
